@@ -1034,3 +1034,121 @@ def hamming_dist_table(F, rep, rule="C15.2"):
     else:
         rep.holds(rule, "hamming_dist", "DnaStringSlice::hamming_dist compares every position 0..len exactly once, always self against other at the same view "
                   "position, through the views (lengths 0..1029 incl. block boundaries; forward, reverse-complemented and mixed operands)")
+
+
+# =========================================================================== C10 default constructors / renderers of the Kmer trait
+
+def kmer_default_tables(F, rep, rule="C10.defaults"):
+    """from_bytes / from_ascii / to_string / kmers_from_bytes / kmers_from_ascii, interpreted with the primitives as observation points"""
+    K = 3
+
+    class H(Oracles):
+        def __init__(self):
+            Oracles.__init__(self)
+            self.n_ext = 0
+
+        @staticmethod
+        def src(v):
+            t = [x for x in tags_of(v) if x.startswith("in:") or x.startswith("b2b:")]
+            return t[0] if t else None
+
+        def on_call(self, it, fn, args, dest_ty, term, caller):
+            path = fn.get("path", "")
+            name = path.split("::")[-1]
+            tr = fn.get("trait", "")
+            if is_print_call(fn):
+                return Opaque(dest_ty, {"fmt"})
+            if tr == "Kmer" and name == "k":
+                return Int(64, False, val=K)
+            if tr == "Mer" and name == "len":
+                return Int(64, False, val=K)
+            if tr == "Kmer" and name == "empty":
+                return Opaque("Self", {"kmer"}, {"bases": ("A",) * K})
+            if tr == "Mer" and name == "set_mut":
+                r = args[0]
+                k = it.read(r.cell, r.path)
+                i = args[1].val if isinstance(args[1], Int) and args[1].is_conc() else None
+                if i is None or not (0 <= i < K):
+                    raise Diverge("set_mut at position %r of a %d-mer" % (args[1], K))
+                b = list(k.info["bases"])
+                b[i] = self.src(args[2]) or "?"
+                it.write(r.cell, r.path, Opaque("Self", {"kmer"}, {"bases": tuple(b)}))
+                return Tup([])
+            if tr == "Kmer" and name == "extend_right":
+                k = recv(it, args[0])
+                b = list(k.info["bases"])[1:] + [self.src(args[1]) or "?"]
+                return Opaque("Self", {"kmer"}, {"bases": tuple(b)})
+            if tr == "Mer" and name == "get":
+                k = recv(it, args[0])
+                i = args[1].val if isinstance(args[1], Int) and args[1].is_conc() else None
+                return Int(8, False, bits=[TOP] * 8, tags=frozenset({"base:%s" % i}))
+            if path == "base_to_bits":
+                s_ = self.src(args[0])
+                return Int(8, False, bits=[TOP] * 8, tags=frozenset({"b2b:" + (s_[3:] if s_ else "?")}))
+            if path == "bits_to_base":
+                t = [x for x in tags_of(args[0]) if x.startswith("base:")]
+                return Int(32, False, bits=[TOP] * 32, tags=frozenset({"char-of-" + (t[0] if t else "?")}), kind="char")
+            return NotImplemented
+
+    def inputs(n):
+        return Ref(Cell(Arr([Int(8, False, bits=[TOP] * 8, tags=frozenset({"in:%d" % i})) for i in range(n)]), "input"))
+
+    def run(path, args):
+        body = F.fns.get(path)
+        if body is None:
+            raise KeyError(path)
+        h = H()
+        it = Interp(F, False, h)
+        return it.call_body(body, args), h
+    specs = [("Kmer::from_bytes", "in", False), ("Kmer::from_ascii", "b2b", False), ("Kmer::kmers_from_bytes", "in", True), ("Kmer::kmers_from_ascii", "b2b", True)]
+    for path, pre, many in specs:
+        problems = []
+        inc = []
+        if path not in F.fns:
+            rep.violated(rule, path, "anchor-missing: %s" % path, witness={"kind": "anchor-missing"})
+            continue
+        for n in ((K, K + 2) if not many else (0, K - 1, K, K + 1, K + 3)):
+            rep.evaluations += 1
+            try:
+                out, h = run(path, [inputs(n)])
+            except (Undecided, Unsupported) as e:
+                inc.append("%d input items: %s" % (n, e))
+                continue
+            except Diverge as e:
+                problems.append("%s diverges on %d input items (K=%d): %s" % (path, n, K, e))
+                continue
+            if not many:
+                got = out.info.get("bases") if isinstance(out, Opaque) else None
+                want = tuple("%s:%d" % (pre, i) for i in range(K))
+                if got != want:
+                    problems.append("%s of %d items builds the k-mer %s; required base i = %s item i for i < K: %s" % (path, n, got, "the code of" if pre == "b2b" else "", want))
+            else:
+                got = [e.info.get("bases") for e in out.elems] if isinstance(out, VecV) else None
+                want = [tuple("%s:%d" % (pre, i + j) for j in range(K)) for i in range(max(0, n - K + 1))]
+                if got != want:
+                    problems.append("%s of %d items yields %s; required the %d windows %s" % (path, n, got, len(want), want))
+        if problems:
+            rep.violated(rule, path, problems[0], site=F.site(F.fns[path], F.fns[path]["line"]), witness={"kind": "row", "count": len(problems)})
+        elif inc:
+            rep.inconclusive(rule, path, "%s: %s" % (path, inc[0]))
+        else:
+            rep.holds(rule, path, "%s feeds item i (%s) to position i of the k-mer%s" % (path, "through base_to_bits" if pre == "b2b" else "as is",
+                                                                                         " and rolls one item per further k-mer: n-K+1 k-mers in order" if many else ", first K items only"))
+    # to_string
+    path = "Kmer::to_string"
+    if path not in F.fns:
+        rep.violated(rule, path, "anchor-missing: %s" % path, witness={"kind": "anchor-missing"})
+    else:
+        rep.evaluations += 1
+        try:
+            out, h = run(path, [Ref(Cell(Opaque("Self", {"kmer"}, {"bases": ("x",) * K}), "self"))])
+            got = [([t for t in tags_of(e) if t.startswith("char-of-")] or [None])[0] for e in out.elems] if isinstance(out, VecV) else None
+            want = ["char-of-base:%d" % i for i in range(K)]
+            if got == want:
+                rep.holds(rule, path, "to_string renders bits_to_base(get(i)) for i = 0..K in order")
+            else:
+                rep.violated(rule, path, "to_string renders %s; required %s" % (got, want), site=F.site(F.fns[path], F.fns[path]["line"]))
+        except (Undecided, Unsupported) as e:
+            rep.inconclusive(rule, path, "to_string: %s" % e)
+        except Diverge as e:
+            rep.violated(rule, path, "to_string diverges: %s" % e)
